@@ -42,7 +42,7 @@ CONTENT_KINDS = ["none", "none", "zero", "false", "empty-str", "empty-list", "em
 
 def content_of(kind, k):
     return {"none": None, "zero": 0, "false": False, "empty-str": "", "empty-list": [], "empty-map": {},
-            "list": [k, 1], "str": "text of " + k}.get(kind, {"content-of": k})
+            "list": [k, 1], "str": "text of %s" % (k,)}.get(kind, {"content-of": k})
 
 
 def gen_case(rng):
@@ -81,7 +81,9 @@ def gen_case(rng):
         present = names[:]  # all required ones satisfied
     cfg = present[:]
     if rng.random() < 0.12:
-        cfg.append(rng.choice(["unknown", "pipelin", "zz1", "log", "logg", "ogging", "in", "g", "", "Logging", "logging2", "loggin", "s"]))
+        cfg.append(rng.choice(["unknown", "pipelin", "zz1", "log", "logg", "ogging", "in", "g", "", "Logging", "logging2", "loggin", "s",
+                               # a YAML mapping key need not be text (`1: x`, `~: x`, `2.5: x`, `yes: x`): still an unknown section
+                               1, None, 2.5, True]))
     if rng.random() < 0.3:
         cfg.append("logging")
     rng.shuffle(cfg)
@@ -157,7 +159,9 @@ def impl(case):
 
 def line(case, o):
     order = o["order"] if isinstance(o["order"], list) else []
-    return {"plugins": case["plugins"], "order": order, "cfg": case["cfg"], "returns": case["returns"]}
+    # (section names that are not text are unknown sections to the model, whatever they are)
+    cfg = [k if isinstance(k, str) else "\u0001not-text:%r" % (k,) for k in case["cfg"]]
+    return {"plugins": case["plugins"], "order": order, "cfg": cfg, "returns": case["returns"]}
 
 
 def order_matches_layers(order, layers):
